@@ -86,7 +86,7 @@ pub fn monitor_c04() -> super::Monitor {
             "a FIN whose sequence number equals the right edge is tolerated",
         ],
         floors: &[("runs", 500), ("segments_injected", 50_000), ("acks_checked", 20_000), ("runs_with_finished", 20), ("distinct", 60)],
-        parts: vec![super::Part { name: "peer", cases: |c| c.n(20_000, 600_000), f: c04_case }],
+        parts: vec![super::Part { name: "peer", cases: |c| c.n(20_000, 400_000), f: c04_case }],
         post: None,
     }
 }
@@ -97,7 +97,7 @@ pub fn monitor_c17() -> super::Monitor {
         rule: "one event at a time (one injected segment via poll_ingress_single, one poll_egress with a time advance, or one API call), state() read before and after; the monitor classifies the event from its own bookkeeping (socket ISS from its SYN, its FIN position from the bytes written before close, the peer's in-order position from the receiver model, the window from emitted segments) and permits only the RFC 9293 edges: ESTABLISHED only on ack==ISS+1, CLOSE-WAIT/CLOSING/TIME-WAIT entry only on an in-order in-window FIN, FIN-WAIT-2 / LAST-ACK->CLOSED / CLOSING->TIME-WAIT only on ack==own FIN+1, reset only by an RST inside [last ACK emitted, advertised edge) (or the exactly expected RST|ACK in SYN-SENT), TIME-WAIT leaves only by its 10 s timer and does leave. A class is a distinct observed (state,event,next state) edge or (state, placement, ack class).",
         assumptions: &["an unchanged state is always permitted; only changes are judged", "a listener that returns to LISTEN ends the run (second incarnation not modelled)"],
         floors: &[("runs", 500), ("state_checks", 100_000), ("forbidden_edge_attempts", 10_000), ("rsts_outside_window", 500), ("distinct", 150)],
-        parts: vec![super::Part { name: "peer", cases: |c| c.n(20_000, 600_000), f: c17_case }],
+        parts: vec![super::Part { name: "peer", cases: |c| c.n(20_000, 400_000), f: c17_case }],
         post: None,
     }
 }
